@@ -18,7 +18,7 @@ structure PlainSt (cfg : Cfg) (al : Bool) (gst : GState) (vst : VSt) (lo : Optio
   mem : ∀ f ∈ gst.block, Member cfg al f
   vfresh : VoidsFresh gst.block
   vfresh2 : ∀ f ∈ gst.block, isVoid f.ty = true → f.name ∉ Fields.names fs
-  boff : ∀ c l, gst.blockOff = some c → vst.spos = some l → c ≤ l
+  boff : gst.block ≠ [] → ∀ c l, gst.blockOff = some c → vst.spos = some l → c ≤ l
   dyn : al = true → vst.spos = none → gst.block.length ≤ 1
   vsync : vst = syncSt vst.spos
   np : gst.prevBits = false
@@ -142,7 +142,7 @@ theorem flush_ok (cfg : Cfg) (al : Bool) (salign : Nat) (gst : GState) (vst : VS
   have hp : Pending gst.block fsV offsV fs offs := hP.pend
   have hc : Chain cfg al gst.block sp lo := hP.chain
   have hm := hP.mem
-  have hboff : ∀ c l, gst.blockOff = some c → sp = some l → c ≤ l := hP.boff
+  have hboff : gst.block ≠ [] → ∀ c l, gst.blockOff = some c → sp = some l → c ≤ l := hP.boff
   have hdynl : al = true → sp = none → gst.block.length ≤ 1 := hP.dyn
   unfold flush at hfl
   cases hB : gst.block with
@@ -225,7 +225,7 @@ theorem flush_ok (cfg : Cfg) (al : Bool) (salign : Nat) (gst : GState) (vst : VS
               rw [hbo] at hsk
               simp only [ne_eq, Option.some.injEq, Decidable.not_not] at hsk
               rw [hsk]
-          have hle := hboff o b0 hbo rfl
+          have hle := hboff (by rw [hB]; simp) o b0 hbo rfl
           have : o = b0 := by
             cases hal : al with
             | false => rw [hal] at hc1; simpa using hc1
